@@ -373,17 +373,21 @@ func suiteLex(o *suiteOut, r *rng, tier string, n int) {
 			cuts = append(cuts, sb.Len())
 			key := pick(r, []string{"Title", "Creator", "CreationDate", "BoundingBox", "X"})
 			val := pick(r, []string{"hello world", "1 2 3 4", "", "(a) b", "x  y"})
-			eol := pick(r, []string{"\n", "\r", "\r\n"})
-			sb.WriteString("%%" + key + ": " + val + eol)
+			// a line end; `wide` ones contain a further (blank) line, after which a %%+ line is no continuation
+			plainEOL := []string{"\n", "\r", "\r\n"}
+			wideEOL := []string{"\r \n", "\r\t \n", "\n \n", "\r\r", "\n\r", "\r \r", "\n", "\r", "\r\n"}
 			full := val
 			if r.chance(1, 4) {
 				more := pick(r, []string{"and more", "z"})
-				sb.WriteString("%%+ " + more + eol)
+				sb.WriteString("%%" + key + ": " + val + pick(r, plainEOL))
+				sb.WriteString("%%+ " + more + pick(r, wideEOL))
 				full += " " + more
+			} else {
+				sb.WriteString("%%" + key + ": " + val + pick(r, wideEOL))
 			}
 			want = append(want, postscript.Comment{Key: key, Value: full})
 			if r.chance(1, 2) {
-				sb.WriteString(pick(r, []string{"1 2 add pop\n", "% plain comment\n", "/a 1 def\n"}))
+				sb.WriteString(pick(r, []string{"1 2 add pop\n", "% plain comment\n", "/a 1 def\n", "/a\r \n", "/b 2 def\r\t\n", "1 pop \r  \n", "(s) pop\r\n", "/c\r \r"}))
 			}
 		}
 		prog := sb.String()
@@ -659,7 +663,8 @@ func suiteEexec(o *suiteOut, r *rng, tier string, n int) {
 				}
 			}
 			// as in Type 1 fonts: the operator runs inside a procedure, the data follows the procedure's name
-			fmt.Fprintf(&plain, "/RD__ {string currentfile exch readstring pop} def %d RD__ ", ln)
+			// exactly one byte (blank, tab, LF or CR) separates the name from the data
+			fmt.Fprintf(&plain, "/RD__ {string currentfile exch readstring pop} def %d RD__%s", ln, pick(r, []string{" ", " ", "\n", "\r", "\t"}))
 			plain.Write(bin)
 			plain.WriteString(" /s" + fmt.Sprint(k) + "__ exch def ")
 			bins["s"+fmt.Sprint(k)+"__"] = bin
@@ -729,7 +734,8 @@ func suiteEexec(o *suiteOut, r *rng, tier string, n int) {
 		} else {
 			trailerClear = trailer
 		}
-		inner := append(append([]byte{}, body...), []byte("mark currentfile closefile\n")...)
+		// the delimiter after closefile is part of the encrypted text: LF, CR, blank or tab
+		inner := append(append([]byte{}, body...), []byte("mark currentfile closefile"+pick(r, []string{"\n", "\n", "\r", " ", "\t"}))...)
 		cipher := cipherEncrypt(55665, append(iv[:], inner...))
 		var enc bytes.Buffer
 		enc.WriteString(prefix)
